@@ -32,6 +32,9 @@ type Config struct {
 	// MemAdaptive: the threshold comes from a memory-adaptive calculator (memory reading fixed below the low
 	// water mark, so the effective threshold is T); pacing is done by the same throttling checker
 	MemAdaptive bool `json:"memory_adaptive,omitempty"`
+	// T2 > 0: a second throttling rule of the resource (same interval and queueing limit, threshold T2) behind the
+	// first one: an admitted request honours the spacing of BOTH rules
+	T2 float64 `json:"second_rule_threshold,omitempty"`
 }
 
 func (c Config) String() string { b, _ := json.Marshal(c); return string(b) }
@@ -116,10 +119,16 @@ func (s *scen) Reset() {
 		s.rule.LowMemUsageThreshold, s.rule.HighMemUsageThreshold = int64(s.cfg.T), 1
 		s.rule.MemLowWaterMarkBytes, s.rule.MemHighWaterMarkBytes = 1024, 2048
 	}
-	if _, err := flow.LoadRules([]*flow.Rule{s.rule}); err != nil {
+	rules := []*flow.Rule{s.rule}
+	if s.cfg.T2 > 0 {
+		r2 := *s.rule
+		r2.Threshold = s.cfg.T2
+		rules = append(rules, &r2)
+	}
+	if _, err := flow.LoadRules(rules); err != nil {
 		panic(err)
 	}
-	if len(flow.GetRules()) != 1 {
+	if len(flow.GetRules()) != len(rules) {
 		panic("harness: throttling rule not accepted")
 	}
 }
@@ -139,7 +148,13 @@ func (s *scen) Apply(i int) (string, string) {
 		}
 		r := *s.rule
 		r.MaxQueueingTimeMs = s.curMQ
-		if _, err := flow.LoadRules([]*flow.Rule{&r}); err != nil {
+		rs := []*flow.Rule{&r}
+		if s.cfg.T2 > 0 {
+			r2 := r
+			r2.Threshold = s.cfg.T2
+			rs = append(rs, &r2)
+		}
+		if _, err := flow.LoadRules(rs); err != nil {
 			return "", "reload failed: " + err.Error()
 		}
 		s.fresh = true
@@ -155,23 +170,34 @@ func (s *scen) Apply(i int) (string, string) {
 	for _, d := range s.sleeps[nSleeps:] {
 		wait += int64(d)
 	}
-	if len(s.sleeps)-nSleeps > 1 {
+	maxSleeps := 1
+	if s.cfg.T2 > 0 {
+		maxSleeps = 2
+	}
+	if len(s.sleeps)-nSleeps > maxSleeps {
 		return "", fmt.Sprintf("%v asked to sleep %d times", o, len(s.sleeps)-nSleeps)
 	}
 	if blk != nil {
 		if blk.BlockType() != base.BlockTypeFlow {
 			return "B", fmt.Sprintf("%v blocked with type %v", o, blk.BlockType())
 		}
-		if wait != 0 {
+		if wait != 0 && s.cfg.T2 == 0 {
 			return "B", fmt.Sprintf("%v rejected after being asked to sleep %dns", o, wait)
 		}
 		// a rejection needs a reason: batch above threshold, zero threshold, or the spacing
 		// (rounded up to whole ns) cannot be honoured within the queueing limit
-		just := float64(o.batch) > s.cfg.T
+		just := float64(o.batch) > s.cfg.T || (s.cfg.T2 > 0 && float64(o.batch) > s.cfg.T2)
 		if !just && s.havePass {
 			earliest := s.lastPass + s.cfg.spacing(o.batch)
 			if earliest-arrival > maxQ {
 				just = true
+			}
+			if s.cfg.T2 > 0 {
+				c2 := s.cfg
+				c2.T = s.cfg.T2
+				if s.lastPass+c2.spacing(o.batch)-arrival > maxQ {
+					just = true
+				}
 			}
 		}
 		if !just {
@@ -181,7 +207,7 @@ func (s *scen) Apply(i int) (string, string) {
 		return "B", ""
 	}
 	e.Exit()
-	if float64(o.batch) > s.cfg.T {
+	if float64(o.batch) > s.cfg.T || (s.cfg.T2 > 0 && float64(o.batch) > s.cfg.T2) {
 		return "P", fmt.Sprintf("%v admitted although its batch exceeds the threshold %v", o, s.cfg.T)
 	}
 	if wait < 0 {
@@ -195,6 +221,14 @@ func (s *scen) Apply(i int) (string, string) {
 		return fmt.Sprintf("P0+%d", wait), ""
 	}
 	pass := arrival + wait
+	if s.havePass && !s.fresh && s.cfg.T2 > 0 {
+		c2 := s.cfg
+		c2.T = s.cfg.T2
+		if !c2.spacedExactly(pass-s.lastPass, o.batch) {
+			return "P", fmt.Sprintf("t=+%dns %v passes at +%dns, only %dns after the previous pass time +%dns (the second rule requires %v*%dns/%v)",
+				arrival-T0, o, pass-T0, pass-s.lastPass, s.lastPass-T0, o.batch, s.cfg.intervalNs(), s.cfg.T2)
+		}
+	}
 	if s.havePass && !s.fresh {
 		if !s.cfg.spacedExactly(pass-s.lastPass, o.batch) {
 			return "P", fmt.Sprintf("t=+%dns %v passes at +%dns, only %dns after the previous pass time +%dns (required %v*%dns/%v)",
@@ -266,6 +300,12 @@ func configs() []Config {
 					out = append(out, Config{T: t, IntervalMs: iv, MaxQMs: mq, SleepAdv: sa})
 				}
 			}
+		}
+	}
+	// two throttling rules on the resource (sleeping advances the clock, as it does in production)
+	for _, p := range [][2]float64{{2, 1000}, {1000, 2}, {2, 3}} {
+		for _, mq := range []uint32{1000, 500} {
+			out = append(out, Config{T: p[0], T2: p[1], IntervalMs: 1000, MaxQMs: mq, SleepAdv: true})
 		}
 	}
 	for _, t := range []float64{2, 3} {
